@@ -88,7 +88,7 @@ func (c *c06Oracle) Check(w *World, o *Obs) []Violation {
 		newPw = w.lastSec
 		ack = o.OpErr == "" && o.RowsBefore[pid] != nil && o.Panic == ""
 	}
-	if ack && (o.errorOutcome() || o.FaultFired != "" || o.OpErr != "") {
+	if ack && (o.errorOutcome() || o.OpErr != "" || o.Panic != "") {
 		// the request was reported as failed: it may have lost part of its
 		// own effect (C18 judges what a failed request may and may not do)
 		w.Stats.Reach["c06_change_reported_failed"]++
